@@ -9,6 +9,7 @@ import pe2
 from pe2 import Case, VERIF, COQ
 
 FORBIDDEN = re.compile(r'\b(Admitted|admit|Axiom|Axioms|Parameter|Parameters|Conjecture|Hypothesis|Variable[s]?\s+\w+\s*:.*\bProp\b)|Unset\s+Guard|bypass_check|-type-in-type|Admit Obligations')
+OUT = os.environ.get('PE2_OUT', VERIF)   # where evidence/ and replays/ are written (seeded-change runs use a scratch directory)
 ALLOWED_AXIOMS = set()     # no axiom is used by any property theorem; extend deliberately if that changes
 
 def load_known():
@@ -101,26 +102,26 @@ def proof_obligations(pid, tier):
     return res
 
 def write_replay(pid, case, io, mo, why, extra=None):
-    d = os.path.join(VERIF, 'replays', pid, case.key())
+    d = os.path.join(OUT, 'replays', pid, case.key())
     os.makedirs(d, exist_ok=True)
     json.dump(case.to_json(), open(os.path.join(d, 'case.json'), 'w'), indent=1)
     if case.mode == 'file':
         open(os.path.join(d, 'prog.pseudo'), 'wb').write(case.program)
     open(os.path.join(d, 'stdin.txt'), 'wb').write(case.stdin)
     rep = dict(property=pid, why=why, implementation=io.summary() if io else None, model=mo.summary() if mo else None,
-               rerun='python3 harness/check.py %s --replay %s' % (pid, os.path.relpath(d, VERIF)))
+               rerun='python3 harness/check.py %s --replay %s' % (pid, os.path.relpath(d, OUT)))
     if extra:
         rep.update(extra)
     json.dump(rep, open(os.path.join(d, 'report.json'), 'w'), indent=1)
-    return os.path.relpath(d, VERIF)
+    return os.path.relpath(d, OUT)
 
 def write_obligation_replay(pid, problems):
-    d = os.path.join(VERIF, 'replays', pid, 'obligations')
+    d = os.path.join(OUT, 'replays', pid, 'obligations')
     os.makedirs(d, exist_ok=True)
     json.dump(dict(property=pid, broken_obligations=problems,
                    note='a theorem of coq/Properties_%s.v (or something it depends on) no longer checks; no failing input was found' % pid),
               open(os.path.join(d, 'report.json'), 'w'), indent=1)
-    return os.path.relpath(d, VERIF)
+    return os.path.relpath(d, OUT)
 
 def matches_known(pid, case, why, known):
     for k in known:
@@ -145,7 +146,7 @@ def main():
     mod = importlib.import_module('props.' + pid)
     if not a.replay:
         import shutil
-        shutil.rmtree(os.path.join(VERIF, 'replays', pid), ignore_errors=True)
+        shutil.rmtree(os.path.join(OUT, 'replays', pid), ignore_errors=True)
     known = load_known()
     violations = []      # (replay_path, suffix)
     known_hits = []
@@ -282,8 +283,8 @@ def main():
                             known_findings_seen=sorted(set(known_hits)), extra=stats.get('extra', {})),
               assumptions=getattr(mod, 'ASSUMPTIONS', []),
               wall_s=wall, violations=len(violations))
-    os.makedirs(os.path.join(VERIF, 'evidence'), exist_ok=True)
-    json.dump(ev, open(os.path.join(VERIF, 'evidence', pid + '.json'), 'w'), indent=1)
+    os.makedirs(os.path.join(OUT, 'evidence'), exist_ok=True)
+    json.dump(ev, open(os.path.join(OUT, 'evidence', pid + '.json'), 'w'), indent=1)
     for w in sorted(set(known_hits)):
         print('KNOWN-FINDING: property=%s %s' % (pid, w))
     print('[%s %s] theorems %d/%d, cases %d (agree %d, inconclusive %s, disagree %d), intrinsic failures %d, crashes %d, %.1fs'
